@@ -31,6 +31,19 @@ def _log(*e):
         _events.append(e)
 
 
+def _cols_of(key, width):
+    """columns of the 2-D output array touched by an index expression (None = cannot tell: treated as all columns)."""
+    try:
+        if isinstance(key, tuple) and len(key) == 2:
+            c = key[1]
+            if isinstance(c, slice):
+                return tuple(range(width)[c])
+            return tuple(sorted({int(v) for v in np.asarray(c).ravel()}))
+        return tuple(range(width))
+    except Exception:
+        return tuple(range(width))
+
+
 class Traced(np.ndarray):
     """ndarray that records row reads / writes with the running task and whether the mask lock is held."""
     def __array_finalize__(self, obj):
@@ -38,6 +51,12 @@ class Traced(np.ndarray):
         self.top = False
 
     def __getitem__(self, key):
+        if self.top and self.tag == "x":
+            _log("xget", _cols_of(key, self.shape[1]), None, getattr(_tl, "node", None))
+            out = super().__getitem__(key)
+            if AMPLIFY["on"]:
+                time.sleep(AMPLIFY["pause"])      # widen the window between a leaf's read of its rows and its write-back
+            return out
         if self.top and isinstance(key, (int, np.integer)):
             _log("get", self.tag, int(key), getattr(_tl, "node", None), frozenset(getattr(_tl, "locks", ())))
             if AMPLIFY["on"] and self.tag == "masks":
@@ -50,6 +69,10 @@ class Traced(np.ndarray):
         return super().__getitem__(key)
 
     def __setitem__(self, key, value):
+        if self.top and self.tag == "x":
+            _log("xset", _cols_of(key, self.shape[1]), None, getattr(_tl, "node", None))
+            self.view(np.ndarray)[key] = value
+            return None
         if self.top and isinstance(key, (int, np.integer)):
             _log("set", self.tag, int(key), getattr(_tl, "node", None), frozenset(getattr(_tl, "locks", ())))
             if AMPLIFY["on"]:
@@ -67,6 +90,12 @@ class NpProxy:
         arr = np.zeros(*a, **k)
         if arr.ndim == 2 and arr.dtype == np.bool_:
             arr = arr.view(Traced); arr.tag = "masks"; arr.top = True
+        return arr
+
+    def copy(self, a, *args, **k):
+        arr = np.copy(a, *args, **k)
+        if isinstance(arr, np.ndarray) and arr.ndim == 2 and arr.dtype.kind == "f":
+            arr = arr.view(Traced); arr.tag = "x"; arr.top = True      # the output array of the top-down pass
         return arr
 
     def empty(self, *a, **k):
@@ -155,6 +184,7 @@ def conformance(root, events, layers_rec, topdown):
     """what the model assumes about one instrumented parallel run; returns list of problems."""
     objs = G.post_order(root)
     kids = {int(o.id): [int(c.id) for c in o.children] for o in objs}
+    scopes = {int(o.id): [int(v) for v in o.scope] for o in objs if not o.children}
     problems = []
     depth = {}
     common = {}      # mask row -> locks held during EVERY write to it (mutual exclusion needs a common one)
@@ -183,6 +213,13 @@ def conformance(root, events, layers_rec, topdown):
             common[(epoch, e[2])] = e[4] if (epoch, e[2]) not in common else (common[(epoch, e[2])] & e[4])
             if e[2] in depth and e[3] in depth and depth[e[2]] <= depth[e[3]]:
                 problems.append(dict(what="mask row of the same or a shallower layer written", node=e[3], row=e[2]))
+    # a leaf task may only write cells of its own scope in the output array (cells of other scopes belong to
+    # other tasks of the same layer: writing them back from a private copy can undo their update)
+    for e in events:
+        if e[0] == "xset" and e[3] is not None and e[3] in scopes:
+            extra = sorted(set(e[1]) - set(scopes[e[3]]))
+            if extra:
+                problems.append(dict(what="a leaf task writes output cells outside its own scope", node=e[3], columns=extra[:6]))
     for row, locks in common.items():
         if not locks:
             problems.append(dict(what="writes to one mask row are not all protected by a common lock", row=row[1]))
@@ -219,6 +256,18 @@ def shared_child_dag(rs, n_parents, n_vars=3, kind="prod"):
     return root
 
 
+def clt_product(rs, n_leaves):
+    """one product over several multivariate (Chow-Liu) leaves and a univariate one: all leaves run in one layer."""
+    from deeprob.spn.structure.leaf import Bernoulli
+    from deeprob.spn.structure.node import Product, assign_ids
+    kids = []; v = 0
+    for _ in range(n_leaves):
+        k = int(rs.randint(2, 4)); kids.append(G.rand_clt(rs, list(range(v, v + k)))); v += k
+    kids.append(Bernoulli(v, float(rs.randint(1, 16) / 16.0)))
+    root = Product(children=kids); assign_ids(root)
+    return root
+
+
 def stress(seed, n_parents=16, n_rows=400000, reps=3):
     """search: parallel sample on all-NaN rows; counts cells left unfilled (a lost mask update)."""
     from deeprob.spn.algorithms.sampling import sample
@@ -246,8 +295,8 @@ def directed_race(seed, n_parents=4, n_rows=64):
     found = None
     AMPLIFY["on"] = True
     try:
-        for kind in ("prod", "sum", "prod", "sum"):
-            root = shared_child_dag(rs, n_parents, n_vars=2, kind=kind)
+        for kind in ("prod", "sum", "clt", "prod", "sum", "clt"):
+            root = shared_child_dag(rs, n_parents, n_vars=2, kind=kind) if kind != "clt" else clt_product(rs, n_parents)
             tab = G.Table(root); scope = sorted(tab.root_scope()); width = max(scope) + 1
             x = np.full((n_rows, width), np.nan, dtype=np.float32)
             for name, f in (("mpe", mpe), ("sample", sample)):
@@ -255,8 +304,8 @@ def directed_race(seed, n_parents=4, n_rows=64):
                 (y,), ev, lrec = instrumented(lambda: (f(root, x, n_jobs=n_parents),))
                 unfilled = int(np.isnan(y[:, scope]).sum())
                 if unfilled:
-                    found = dict(what=f"parallel {name} leaves missing cells unfilled under the amplified schedule (every read of a mask row "
-                                      "is followed by a pause before its write-back: a lost update of the shared child's mask)",
+                    found = dict(what=f"parallel {name} leaves missing cells unfilled under the amplified schedule (a task's read of shared state — a mask row, "
+                                      "or rows of the output array — is followed by a pause before its write-back: another task's update is lost)",
                                  entry_point=name, n_jobs=n_parents, rows=n_rows, unfilled_cells=unfilled, circuit=tab.brief(),
                                  sequential_unfilled=int(np.isnan(f(root, x, n_jobs=0)[:, scope]).sum()))
                     return found
@@ -278,7 +327,9 @@ def main(tier, seed, replay=None):
     ncirc = 10 if tier == "quick" else 60
     specs = []
     for i in range(ncirc):
-        if i % 2 == 0:
+        if i % 5 == 4:
+            specs.append(("random", clt_product(rs, int(rs.choice([2, 3, 4])))))
+        elif i % 2 == 0:
             specs.append(("shared", shared_child_dag(rs, int(rs.choice([2, 4, 8, 16])), n_vars=int(rs.randint(1, 4)), kind=["prod", "sum"][(i // 2) % 2])))
         else:
             specs.append(("random", c01.gen_circuit(rs, i, tier, kinds=[("bern",), ("bern", "cat")][i % 4 // 2 % 2], clt=0.2)))
